@@ -5,6 +5,7 @@ use crate::bridge::*;
 use crate::dev::Dev;
 use crate::engine::*;
 use crate::hist::{self, Hist};
+use crate::iterprog::{self, Prog, PROGS};
 use crate::model::*;
 use crate::table;
 use serde_json::{json, Value};
@@ -25,6 +26,8 @@ pub enum ROp {
     Count,
     /// complete Reader only: read()
     ReadAll,
+    /// create an iterator and drive it with a program of std adaptors (nth, skip, step_by, last, count)
+    Prog(Prog),
 }
 
 fn op_name(o: &ROp) -> String {
@@ -35,10 +38,11 @@ fn op_name(o: &ROp) -> String {
         ROp::Seek(k) => format!("Seek({})", k),
         ROp::Count => "Count".into(),
         ROp::ReadAll => "ReadAll".into(),
+        ROp::Prog(p) => format!("Iter[{}]", p.name()),
     }
 }
 fn op_from(s: &str) -> Option<ROp> {
-    let all: Vec<ROp> = (0..3).map(ROp::Iter).chain([ROp::Iter(ALL)]).chain((0..=N).map(ROp::Nth)).chain((0..=N).map(ROp::Seek)).chain([ROp::Count, ROp::ReadAll]).collect();
+    let all: Vec<ROp> = (0..3).map(ROp::Iter).chain([ROp::Iter(ALL)]).chain((0..=N).map(ROp::Nth)).chain((0..=N).map(ROp::Seek)).chain([ROp::Count, ROp::ReadAll]).chain(PROGS.iter().map(|p| ROp::Prog(*p))).collect();
     all.into_iter().find(|o| op_name(o) == s)
 }
 
@@ -50,7 +54,8 @@ fn decode(b: u8) -> ROp {
         4..=7 => ROp::Nth(b as usize - 4),
         8..=11 => ROp::Seek(b as usize - 8),
         12 => ROp::Count,
-        _ => ROp::ReadAll,
+        13 => ROp::ReadAll,
+        _ => ROp::Prog(PROGS[b as usize - 14]),
     }
 }
 
@@ -197,6 +202,7 @@ pub enum Ans {
     Nth(Option<Result<usize, String>>),
     Unit(Result<(), String>),
     Count(Result<usize, String>),
+    Prog(iterprog::Out<Result<usize, String>>),
 }
 
 fn which(recs: &[MRead], got: &MRead) -> Result<usize, String> {
@@ -230,6 +236,14 @@ fn drive<T: std::io::Read + std::io::Seek>(r: &mut ShapeReader<T>, ops: &[ROp], 
             ROp::Seek(k) => Ans::Unit(r.seek(*k).map_err(|e| err_kind(&e))),
             ROp::Count => Ans::Count(r.shape_count().map_err(|e| err_kind(&e))),
             ROp::ReadAll => unreachable!(),
+            ROp::Prog(p) => {
+                // the program runs on the library's iterator itself (a `map` in between would hide an overridden method)
+                let o = iterprog::run(r.iter_shapes(), *p, N + 3);
+                Ans::Prog(iterprog::Out {
+                    answers: o.answers.into_iter().map(|a| a.map(|x| x.map_err(|e| err_kind(&e)).and_then(|s| which(recs, &from_lib(&s))))).collect(),
+                    count: o.count,
+                })
+            }
         });
     }
 }
@@ -297,6 +311,10 @@ pub fn observe(case: &Case, fx: &Fixture) -> Vec<Ans> {
                     ROp::Seek(k) => Ans::Unit(r.seek(*k).map_err(|e| err_kind(&e))),
                     ROp::Count => Ans::Count(r.shape_count().map_err(|e| err_kind(&e))),
                     ROp::Nth(_) => unreachable!(),
+                    ROp::Prog(p) => {
+                        let o = iterprog::run(r.iter_shapes_and_records(), *p, N + 3);
+                        Ans::Prog(iterprog::Out { answers: o.answers.into_iter().map(|a| a.map(|x| pair(x, &fx.recs))).collect(), count: o.count })
+                    }
                 });
             }
         }
@@ -347,6 +365,35 @@ pub fn judge(case: &Case, answers: &[Ans]) -> Vec<(String, String)> {
                 p = matched;
                 prev_kind = if j == ALL { "full-iteration" } else { "partial-iteration" };
             }
+            (ROp::Prog(pr), Ans::Prog(o)) => {
+                let mut matched: Vec<usize> = vec![];
+                let mut expected = vec![];
+                for &start in &p {
+                    let (want, newpos) = iterprog::reference(start, N, *pr, N + 3);
+                    let same = want.count == o.count
+                        && want.answers.len() == o.answers.len()
+                        && want.answers.iter().zip(&o.answers).all(|(w, g)| match (w, g) {
+                            (None, None) => true,
+                            (Some(k), Some(Ok(j))) => k == j,
+                            _ => false,
+                        });
+                    if same {
+                        matched.push(newpos);
+                    }
+                    expected.push((start, want));
+                }
+                if matched.is_empty() {
+                    return fail(
+                        "adaptor",
+                        format!("the calls returned {:?} (count {:?}); over the records from a legal starting position they return {:?}", o.answers, o.count, expected.iter().map(|(s, w)| format!("from {}: {:?} count {:?}", s, w.answers, w.count)).collect::<Vec<_>>()),
+                    );
+                }
+                matched.push(0);
+                matched.sort_unstable();
+                matched.dedup();
+                p = matched;
+                prev_kind = "adaptor-iteration";
+            }
             (ROp::Nth(k), Ans::Nth(a)) => {
                 if !indexed {
                     if !matches!(a, Some(Err(e)) if e == "MissingIndexFile") {
@@ -396,11 +443,13 @@ fn j_of(op: &ROp) -> usize {
     }
 }
 
-fn enabled(h: &Hist) -> Vec<u8> {
+/// `progs`: indices into PROGS of the adaptor programs in the alphabet
+fn enabled(h: &Hist, progs: &[u8]) -> Vec<u8> {
+    let p = progs.iter().map(|i| 14 + *i);
     match KINDS[h[0] as usize] {
-        Kind::ShapeReaderShx => (0..13).collect(),
-        Kind::Complete => vec![0, 1, 2, 3, 8, 9, 10, 11, 12, 13],
-        Kind::ShapeReaderNoShx => vec![0, 1, 2, 3, 4, 8, 12],
+        Kind::ShapeReaderShx => (0..13).chain(p).collect(),
+        Kind::Complete => [0, 1, 2, 3, 8, 9, 10, 11, 12, 13].into_iter().chain(p).collect(),
+        Kind::ShapeReaderNoShx => [0, 1, 2, 3, 4, 8, 12].into_iter().chain(p).collect(),
     }
 }
 
@@ -449,7 +498,6 @@ fn selftest(fx: &Fixture) -> (u64, u64) {
 
 pub fn check(tier: Tier) -> i32 {
     let started = Instant::now();
-    let depth = tier.pick(4, 5);
     let types: Vec<Ty> = tier.pick(vec![Ty::PointM, Ty::Polyline, Ty::PolygonZ, Ty::Multipatch], vec![Ty::Point, Ty::PointZ, Ty::Polyline, Ty::PolylineM, Ty::PolygonZ, Ty::MultipointZ, Ty::Multipatch]);
     let mut fxs = vec![];
     for t in &types {
@@ -468,54 +516,65 @@ pub fn check(tier: Tier) -> i32 {
             }
         }
     }
-    let f2 = fxs.clone();
-    let ty2 = types.clone();
-    let res = hist::explore(
-        inits,
-        CFG,
-        depth,
-        Arc::new(enabled),
-        Arc::new(move |h, ctx| {
-            let case = Case::from_hist(h, &ty2);
-            let fx = &f2[h[2] as usize][case.layout as usize];
-            let mut hh = Fnv::new();
-            hh.bytes(h);
-            match catch(|| observe(&case, fx)) {
-                Ok(ans) => {
-                    ctx.lib_calls += case.ops.len() as u64 + 1;
-                    ctx.traces += 1;
-                    let mut oh = Fnv::new();
-                    oh.str(&format!("{:?}", ans));
-                    ctx.case_done(hh.finish(), case.ops.len() >= 2, oh.finish());
-                    if case.ops.len() >= 3 {
-                        ctx.sample(|| case.to_json());
+    // quick: depth 4 over the whole alphabet; thorough: depth 5 with five adaptor programs, then depth 4 with all
+    let all_progs: Vec<u8> = (0..PROGS.len() as u8).collect();
+    let five: Vec<u8> = [Prog::NthNext(1), Prog::NextNthNext(0), Prog::Skip(2), Prog::StepBy(2), Prog::NextLast].iter().map(|p| PROGS.iter().position(|q| q == p).unwrap() as u8).collect();
+    let passes: Vec<(usize, Vec<u8>)> = tier.pick(vec![(4, all_progs.clone())], vec![(5, five), (4, all_progs.clone())]);
+    let mut ctxs = vec![];
+    let (mut unique_states, mut states_generated) = (0u64, 0u64);
+    for (depth, progs) in passes {
+        let f2 = fxs.clone();
+        let ty2 = types.clone();
+        let res = hist::explore(
+            inits.clone(),
+            CFG,
+            depth,
+            Arc::new(move |h: &Hist| enabled(h, &progs)),
+            Arc::new(move |h, ctx| {
+                let case = Case::from_hist(h, &ty2);
+                let fx = &f2[h[2] as usize][case.layout as usize];
+                let mut hh = Fnv::new();
+                hh.bytes(h);
+                match catch(|| observe(&case, fx)) {
+                    Ok(ans) => {
+                        ctx.lib_calls += case.ops.len() as u64 + 1;
+                        ctx.traces += 1;
+                        let mut oh = Fnv::new();
+                        oh.str(&format!("{:?}", ans));
+                        ctx.case_done(hh.finish(), case.ops.len() >= 2, oh.finish());
+                        if case.ops.len() >= 3 {
+                            ctx.sample(|| case.to_json());
+                        }
+                        for (sig, d) in judge(&case, &ans) {
+                            ctx.violation(sig, || case.to_json(), || d);
+                        }
                     }
-                    for (sig, d) in judge(&case, &ans) {
-                        ctx.violation(sig, || case.to_json(), || d);
+                    Err(p) => {
+                        ctx.case_done(hh.finish(), true, 1);
+                        ctx.violation(format!("{:?}:{}", case.kind, p.sig()), || case.to_json(), || format!("{}:{} {}", p.file, p.line, p.msg));
                     }
                 }
-                Err(p) => {
-                    ctx.case_done(hh.finish(), true, 1);
-                    ctx.violation(format!("{:?}:{}", case.kind, p.sig()), || case.to_json(), || format!("{}:{} {}", p.file, p.line, p.msg));
-                }
-            }
-        }),
-    );
+            }),
+        );
+        unique_states += res.unique_states;
+        states_generated += res.states_generated;
+        ctxs.extend(res.ctxs);
+    }
     let st = selftest(&fxs[0][0]);
-    let agg = merge(res.ctxs);
+    let agg = merge(ctxs);
     finish(
         RunInfo {
             prop: "C15",
             tier,
             level: "model_checking",
             engine: "E1 stateright BFS over reader call histories on the real ShapeReader / Reader; oracle = set-valued cursor model (RefReader)",
-            rule: "every sequence up to the depth bound over {Iter(0), Iter(1), Iter(2), Iter(all), Nth(0..3), Seek(0..3), Count} (ShapeReader with index, 13 actions), {Iter*, Seek*, Count, ReadAll} (complete Reader, 10 actions), {Iter*, Nth(0), Seek(0), Count} (ShapeReader without index: the last three must answer MissingIndexFile) x files of 3 records with pairwise different sizes, with equal sizes, and (readers with an index) stored out of order with fillers between them behind sources returning at most 3 bytes per read, and (ShapeReader with index) at byte offsets beyond 2^31 and 3*2^30 on a sparse source, x types; non-trivial = >= 2 operations",
-            bounds: json!({"depth": depth, "records": N, "types": types.iter().map(|t| t.name()).collect::<Vec<_>>()}),
+            rule: "every sequence up to the depth bound over {Iter(0), Iter(1), Iter(2), Iter(all), Nth(0..3), Seek(0..3), Count} and 14 programs that drive a new iterator through the std adaptors an iterator type may override (nth(k) then next; next, nth(k), next; nth, nth; skip(k); next then skip; step_by(2); last; next then last; count; nth(usize::MAX) fresh and after a next), judged against the same program over the plain sequence of remaining records; base alphabet: (ShapeReader with index, 13 actions), {Iter*, Seek*, Count, ReadAll} (complete Reader, 10 actions), {Iter*, Nth(0), Seek(0), Count} (ShapeReader without index: the last three must answer MissingIndexFile) x files of 3 records with pairwise different sizes, with equal sizes, and (readers with an index) stored out of order with fillers between them behind sources returning at most 3 bytes per read, and (ShapeReader with index) at byte offsets beyond 2^31 and 3*2^30 on a sparse source, x types; non-trivial = >= 2 operations",
+            bounds: json!({"depth": tier.pick("4 (all 14 adaptor programs)", "5 (5 adaptor programs) and 4 (all 14)"), "records": N, "types": types.iter().map(|t| t.name()).collect::<Vec<_>>()}),
             exhaustive: true,
             assumptions: vec!["the model is non-deterministic after a partial iteration exactly as the statement is: a further iteration may continue or restart".into()],
             started,
-            states: res.unique_states,
-            transitions: res.states_generated,
+            states: unique_states,
+            transitions: states_generated,
             selftest: st,
             extra: Default::default(),
         },
